@@ -372,7 +372,8 @@ class Model(object):
                 self.act(fr, f, a)
             for a in f.cauxes:       # deactivize side acts sit at the end of the exit actions
                 ax = self.aux_framer(a)
-                if not ax.done and (not ax.original or ax.main == (fr.name, name)):
+                # 'running' means entered: an aux marked done by a done verb (even by this frame's own exit actions) is still exited
+                if ax.active is not None and (not ax.original or ax.main == (fr.name, name)):
                     self.exit_all(ax)
                     if ax.original:
                         ax.main = None
